@@ -193,6 +193,9 @@ def abortFlow : Nat → FUid → List Score → Bool → M Unit
       else return
     let i ← getInst f
     if !i.status.listening && i.status ≠ .stopping then return
+    -- an activated flow that fails while STARTING (e.g. because a flow it started failed) is not restarted
+    if i.status = .starting && (← getInstX f).activated > 0 then
+      modInstX f fun x => { x with newInstanceStarted := true }
     -- Abort/deactivate all running child flows
     for c in (← getInstX f).childFlowUids do
       if (← getInstX? c).isSome then
